@@ -1248,10 +1248,12 @@ func (s *ClientSession) filterMessage(message *ServerMessage) *ServerMessage {
 				m := message.Event.Update
 				users := make(map[string]bool)
 				for _, entry := range m.Users {
-					users[entry["sessionId"].(string)] = true
+					if sessionId, found := getStringMapEntry[string](entry, "sessionId"); found {
+						users[sessionId] = true
+					}
 				}
 				for _, entry := range m.Changed {
-					if users[entry["sessionId"].(string)] {
+					if sessionId, found := getStringMapEntry[string](entry, "sessionId"); found && users[sessionId] {
 						continue
 					}
 					m.Users = append(m.Users, entry)
